@@ -100,31 +100,13 @@ namespace c12
     constexpr bool simde_f8_excluded = (C12_CTX == 6) && std::is_same_v<T, double>;
     constexpr bool simde_excluded = (C12_CTX == 6);
 
-    // vh::emit_array, plus the single element of a 0-dim ndarray (reduce of a 1-d array over its axis, keepdims=false)
-    template <typename A>
-    void emit(vh::Out& out, const A& a)
-    {
-        if constexpr (meta::is_maybe_v<A>) {
-            if (!nm::has_value(a)) { out.tok("N"); return; }
-            emit(out, nm::unwrap(a));
-        } else if constexpr (meta::is_num_v<A>) {
-            vh::emit_array(out, a);
-        } else {
-            vh::emit_array(out, a);
-            if (vh::to_vec(nm::shape(a)).size() == 0) {
-                using elem_t = meta::get_element_type_t<A>;
-                out.num(static_cast<elem_t>(*nm::data(a)));
-            }
-        }
-    }
-
     template <typename S, typename V>
     void emit_pair(vh::Out& out, const S& scalar_result, const V& simd_result, int ok)
     {
         out.tok("SC");
-        emit(out, scalar_result);
+        vh::emit_array(out, scalar_result);
         out.tok("SI");
-        emit(out, simd_result);
+        vh::emit_array(out, simd_result);
         out.tok("OK");
         out.i(ok);
     }
